@@ -175,8 +175,11 @@ class Publish:
 
         self.data = data
 
-        # XXX: Use the MutableFileVersion instead.
-        self.datalength = self._node.get_size()
+        # The size of the version that is being updated (verinfo[4]), not
+        # the node's cached "most recent size": the latter is not refreshed
+        # by modify() or by a previous update(), and a stale value here
+        # truncates (or corrupts) the file.
+        self.datalength = version[4]
         if data.get_size() > self.datalength:
             self.datalength = data.get_size()
 
